@@ -59,7 +59,22 @@ func (c *check) nctx() int {
 }
 
 func (c *check) explicitValues(p *propInfo) []string {
-	if c.thorough || len(p.values) <= 1 {
+	if c.thorough {
+		// plus every keyword alternative of a length-valued property (the menu's cap is
+		// reached by the lengths before the keywords come)
+		vals := append([]string(nil), p.values...)
+		for _, kv := range p.kwValues {
+			dup := kv.keyword != kv.value
+			for _, v := range vals {
+				dup = dup || v == kv.value
+			}
+			if !dup {
+				vals = append(vals, kv.value)
+			}
+		}
+		return vals
+	}
+	if len(p.values) <= 1 {
 		return p.values
 	}
 	return p.values[:1]
